@@ -46,6 +46,9 @@ for cpu, unit, maxlen, note in (("tms9900", 2, 6, "discharged by C08/disasm_tms9
                         defines=["UNIT=%d" % unit, "MAXLEN=%d" % maxlen, "RANGEFN=disasm_range_%s" % cpu, "DISFN=disasm_%s" % cpu, "DISHDR=disasm/%s.h" % cpu, "RANGEINC=gen/disasm_range_%s.inc" % cpu],
                         subst={"FN": "disasm_range_%s" % cpu, "UNIT": unit, "MAXLEN": maxlen, "TLEN": 5 if unit == 2 else 3},
                         loops="C08/range.loops.json", expected_loops=2, unwind=14, checks=CH, timeout=900))
+GROUPS.append(Group(name="C08/disasm_range_msp430", unity="C08/u_range430.cpp", entry="h_range430",
+                    functions=[("disasm_range_msp430_both", "disasm/msp430.cpp", "harness+2 loop-contracts, any range incl. the interrupt vector part (function text extracted verbatim; backs disasm_range_msp430 and _msp430x)"), ("disasm_msp430/disasm_msp430x", "disasm/msp430.cpp", "replaced by their contract (even length 2..8), discharged for msp430 by C08/disasm_msp430")],
+                    loops="C08/range430.loops.json", expected_loops=2, unwind=20, checks=CH, timeout=900))
 GROUPS.append(Group(name="C08/UtilContext.disasm.pages[bounded]", unity="C19/u_util.cpp", entry="h_disasm_pages",
                     functions=[("UtilContext::disasm(uint32_t, uint32_t)", "core/UtilContext.cpp", "harness, bounded")], defines=["WIDTH=1"],
                     unwind=8, checks=CH, timeout=900, bounded="address ranges touching at most 4 pages of 64 KiB; which pages are in use and their used sub-ranges symbolic"))
